@@ -2,10 +2,14 @@ package main
 
 import (
 	"bufio"
+	"bytes"
 	"fmt"
 	"net"
 	"net/http"
+	"net/http/httptest"
 	"sort"
+	"strconv"
+	"sync"
 	"time"
 
 	vegeta "github.com/tsenart/vegeta/v12/lib"
@@ -101,6 +105,66 @@ func flakyRuns(c *run.Ctx, s *kit.Summary, r *kit.Rng) {
 			}
 			if !res.End().Equal(res.Timestamp.Add(res.Latency)) {
 				bad("end_not_timestamp_plus_latency", "End() differs from Timestamp+Latency", "", "")
+				break
+			}
+		}
+	}
+}
+
+// slowTailRuns: real attacks (real transport) with a -max-body limit against a server that sends the first bytes of
+// each response at once and the rest after a pause. The exchange — and with it "the time the transport took" — lasts
+// until the server has sent the whole response: the server's own clock (arrival of the request → handler returned,
+// same machine) is a LOWER bound of it, and every latency must be at least that long, whatever part of the body the
+// attack keeps.
+func slowTailRuns(c *run.Ctx, s *kit.Summary, r *kit.Rng) {
+	for i := 0; i < c.N(3, 30); i++ {
+		pause := time.Duration(80+r.Pick(120)) * time.Millisecond
+		var mu sync.Mutex
+		took := map[uint64]time.Duration{}
+		srv := httptest.NewServer(http.HandlerFunc(func(rw http.ResponseWriter, rq *http.Request) {
+			t := time.Now()
+			seq, err := strconv.ParseUint(rq.Header.Get("X-Vegeta-Seq"), 10, 64)
+			rw.Header().Set("Content-Length", "72")
+			rw.Write([]byte("12345678"))
+			if f, ok := rw.(http.Flusher); ok {
+				f.Flush()
+			}
+			time.Sleep(pause)
+			rw.Write(bytes.Repeat([]byte("x"), 64))
+			if err == nil {
+				mu.Lock()
+				took[seq] = time.Since(t)
+				mu.Unlock()
+			}
+		}))
+		maxBody := []int64{4, 0, 8, -1, 7, 72, 100}[i%7]
+		workers := uint64(1 + r.Pick(4))
+		atk := vegeta.NewAttacker(vegeta.Workers(workers), vegeta.MaxWorkers(workers), vegeta.MaxBody(maxBody), vegeta.KeepAlive(i%2 == 0), vegeta.Timeout(20*time.Second))
+		var results []*vegeta.Result
+		hits := uint64(4 + r.Pick(6))
+		for res := range atk.Attack(vegeta.NewStaticTargeter(vegeta.Target{Method: "GET", URL: srv.URL + "/"}), limitPacer{hits}, 0, "c05tail") {
+			results = append(results, res)
+		}
+		// the handlers of responses whose rest nobody waited for may still be running
+		time.Sleep(pause + 50*time.Millisecond)
+		srv.Close()
+		s.Count(fmt.Sprintf("slowtail:max_body=%d", maxBody))
+		in := map[string]interface{}{"scenario": "72-byte responses: 8 bytes at once, the rest after " + pause.String(), "max_body": maxBody, "workers": workers, "hits": hits}
+		for _, res := range results {
+			s.Case(fmt.Sprint("slowtail:", i, ":", res.Seq), true)
+			mu.Lock()
+			d, ok := took[res.Seq]
+			mu.Unlock()
+			if !ok || res.Code != 200 || res.Error != "" {
+				continue
+			}
+			if res.Latency < d {
+				s.Violate(kit.Violation{Kind: "latency_below_transport_time", What: "slow response tail: latency smaller than the time the exchange took at the server (request arrived → whole response sent)",
+					Input: in, Expected: ">= " + d.String(), Observed: fmt.Sprintf("seq %d: %s", res.Seq, res.Latency)})
+				break
+			}
+			if !res.End().Equal(res.Timestamp.Add(res.Latency)) {
+				s.Violate(kit.Violation{Kind: "end_not_timestamp_plus_latency", What: "slow response tail: End() differs from Timestamp+Latency", Input: in})
 				break
 			}
 		}
